@@ -822,3 +822,66 @@ Proof.
     replace (0 <=? n) with true by (symmetry; apply Z.leb_le; lia). rewrite Z.eqb_refl.
     match goal with Hn : norm raw' = _ |- _ => rewrite Hn | Hn : _ = norm raw' |- _ => rewrite <- Hn end. rewrite chunks_eqb_refl. reflexivity.
 Qed.
+
+(* ================= completeness of the safety judgement ================= *)
+Lemma insideb_complete cs o e : nsep cs -> o < e -> (forall x, o <= x < e -> freeB cs x) -> insideb cs o e = true.
+Proof.
+  intros Hs Hoe H. destruct (interval_in_chunk cs o e Hs Hoe H) as [c [Hc [A B]]].
+  unfold insideb. apply existsb_exists. exists c. split; [exact Hc|]. apply andb_true_intro. split; apply Z.leb_le; assumption.
+Qed.
+Lemma subsetb_complete a b : nsep b -> (forall x, freeB a x -> freeB b x) -> subsetb a b = true.
+Proof.
+  intros Hs H. unfold subsetb. apply forallb_forall. intros c Hc.
+  destruct (Z_le_gt_dec (snd c) (fst c)) as [Hle|Hgt]; [apply orb_true_intro; left; apply Z.leb_le; exact Hle|].
+  apply orb_true_intro. right. apply insideb_complete; [exact Hs|lia|].
+  intros x Hx. apply H. exists c. split; [exact Hc|unfold inb; lia].
+Qed.
+Lemma disjointb_complete cs o e : (forall x, freeB cs x -> ~ (o <= x < e)) -> disjointb cs o e = true.
+Proof.
+  intros H. unfold disjointb. apply forallb_forall. intros c Hc.
+  destruct (Z_le_gt_dec (snd c) (fst c)) as [A|A]; [rewrite (proj2 (Z.leb_le _ _) A); reflexivity|].
+  destruct (Z_le_gt_dec e o) as [B|B]; [rewrite (proj2 (Z.leb_le _ _) B); rewrite orb_true_r; reflexivity|].
+  destruct (Z_le_gt_dec (snd c) o) as [C|C]; [rewrite (proj2 (Z.leb_le _ _) C); rewrite !orb_true_r; reflexivity|].
+  destruct (Z_le_gt_dec e (fst c)) as [D|D]; [rewrite (proj2 (Z.leb_le _ _) D); rewrite !orb_true_r; reflexivity|].
+  exfalso. apply (H (Z.max (fst c) o)); [exists c; split; [exact Hc|unfold inb; lia]|lia].
+Qed.
+
+Theorem safe_stepb_complete pre live lost o ob post live' lost' :
+  safe_step (abs pre live lost) o ob (abs post live' lost') -> safe_stepb pre live o ob post = true.
+Proof.
+  destruct pre as [cap raw], post as [cap' raw']. unfold abs. cbn [fst snd]. intros H.
+  pose proof (norm_nsep raw) as NF. pose proof (add_chunk_nsep (norm raw) (cap, cap') NF) as NF1.
+  assert (F1 : forall x, freeB (add_chunk (norm raw) (cap, cap')) x <-> (cap <= x < cap') \/ freeB (norm raw) x).
+  { intros x. rewrite (add_chunk_bytes _ _ x NF). unfold inb. cbn [fst snd]. reflexivity. }
+  inversion H; subst; cbn [s_cap s_free s_live s_lost] in *; unfold safe_stepb; cbn [fst snd].
+  - (* alloc *)
+    repeat match goal with
+           | Hx : ?a <= ?b |- context [?a <=? ?b] => rewrite (proj2 (Z.leb_le a b) Hx)
+           | Hx : ?a < ?b |- context [?a <? ?b] => rewrite (proj2 (Z.ltb_lt a b) Hx)
+           | Hx : ?a = ?b |- context [?a =? ?b] => rewrite (proj2 (Z.eqb_eq a b) Hx)
+           end. cbn [andb].
+    assert (Hin : (size =? 0) || insideb (add_chunk (norm raw) (cap, cap')) off (off + size) = true).
+    { destruct (Z.eq_dec size 0) as [Z0|NZ]; [subst; reflexivity|]. apply orb_true_intro. right. apply insideb_complete; [exact NF1|lia|].
+      intros x Hx. apply F1. match goal with Hf : forall x, off <= x < off + size -> _ |- _ => destruct (Hf x Hx) as [A|A] end; [right; exact A|left; unfold grown in A; cbn [s_cap] in A; exact A]. }
+    rewrite Hin. cbn [andb].
+    assert (Hsub : subsetb (norm raw') (add_chunk (norm raw) (cap, cap')) = true).
+    { apply subsetb_complete; [exact NF1|]. intros x Hx. apply F1.
+      match goal with Hf : forall x, freeB (norm raw') x -> _ |- _ => destruct (Hf x Hx) as [[A|A] _] end; [right; exact A|left; unfold grown in A; cbn [s_cap] in A; exact A]. }
+    rewrite Hsub. cbn [andb]. apply disjointb_complete. intros x Hx.
+    match goal with Hf : forall x, freeB (norm raw') x -> _ |- _ => destruct (Hf x Hx) as [_ A] end. exact A.
+  - (* free *)
+    match goal with Hin : In ?r live |- _ => destruct (find_region_complete live r Hin) as [x Hx]; rewrite Hx end.
+    match goal with He : cap' = cap |- _ => rewrite (proj2 (Z.eqb_eq _ _) He) end. cbn [andb]. apply subsetb_complete; [apply add_chunk_nsep; exact NF|].
+    intros y Hy. apply (add_chunk_bytes _ _ y NF). unfold inb. cbn [fst snd].
+    match goal with Hf : forall x, freeB (norm raw') x -> _ |- _ => destruct (Hf y Hy) as [A|A] end; [right; exact A|left; unfold in_region in A; exact A].
+  - (* grow *)
+    match goal with Hn : 0 <= ?n |- _ => rewrite (proj2 (Z.leb_le 0 n) Hn) end. match goal with He : cap' = cap + _ |- _ => rewrite (proj2 (Z.eqb_eq _ _) He) end. cbn [andb].
+    apply subsetb_complete; [exact NF1|]. intros x Hx. apply F1.
+    match goal with Hf : forall x, freeB (norm raw') x -> _ |- _ => destruct (Hf x Hx) as [A|A] end; [right; exact A|left; unfold grown in A; cbn [s_cap] in A; lia].
+  - (* a refused request *)
+    assert (Hsub : subsetb (norm raw') (add_chunk (norm raw) (cap, cap')) = true).
+    { apply subsetb_complete; [exact NF1|]. intros x Hx. apply F1.
+      match goal with Hf : forall x, freeB (norm raw') x -> _ |- _ => destruct (Hf x Hx) as [A|A] end; [right; exact A|left; unfold grown in A; cbn [s_cap] in A; exact A]. }
+    match goal with Hc : cap <= cap' |- _ => rewrite (proj2 (Z.leb_le _ _) Hc) end.
+    destruct o; rewrite Hsub; reflexivity.
+Qed.
